@@ -47,6 +47,8 @@ func acctmodTypeKey(t ast.Expr) string {
 		return "out"
 	case "*input.TxWeightEstimator":
 		return "twe"
+	case "txscript.ScriptClass":
+		return "class"
 	}
 	return ""
 }
@@ -416,4 +418,160 @@ func acctmodConstName(e ast.Expr) string {
 		return s.Sel.Name
 	}
 	return exprString(e)
+}
+
+// acctmodEvalCond evaluates a condition over the witness-type value `wt`
+// (named $recv or $wt after normalisation) for the concrete constant c:
+// `wt == X`, `wt != X`, `wt.IsExpirySpend()`, !, &&, ||.  ok=false when the
+// condition mentions anything else.
+func acctmodEvalCond(n *acctmodNorm, e ast.Expr, c string, expirySet map[string]bool) (val, ok bool) {
+	isWt := func(x ast.Expr) bool {
+		t := n.s(x)
+		return t == "$recv" || t == "$wt"
+	}
+	switch x := e.(type) {
+	case *ast.ParenExpr:
+		return acctmodEvalCond(n, x.X, c, expirySet)
+	case *ast.UnaryExpr:
+		if x.Op == token.NOT {
+			v, ok := acctmodEvalCond(n, x.X, c, expirySet)
+			return !v, ok
+		}
+	case *ast.CallExpr:
+		if s, isSel := x.Fun.(*ast.SelectorExpr); isSel && isWt(s.X) && s.Sel.Name == "IsExpirySpend" && len(x.Args) == 0 {
+			return expirySet[c], true
+		}
+	case *ast.BinaryExpr:
+		switch x.Op {
+		case token.LAND, token.LOR:
+			a, ok1 := acctmodEvalCond(n, x.X, c, expirySet)
+			b, ok2 := acctmodEvalCond(n, x.Y, c, expirySet)
+			if x.Op == token.LAND {
+				return a && b, ok1 && ok2
+			}
+			return a || b, ok1 && ok2
+		case token.EQL, token.NEQ:
+			var other ast.Expr
+			switch {
+			case isWt(x.X):
+				other = x.Y
+			case isWt(x.Y):
+				other = x.X
+			default:
+				return false, false
+			}
+			eq := acctmodConstName(other) == c
+			if x.Op == token.NEQ {
+				return !eq, true
+			}
+			return eq, true
+		}
+	}
+	return false, false
+}
+
+// acctmodLastOkReturn returns the first result of the last top-level
+// `return v, nil` of stmts ("" if the statements only return errors).
+func acctmodLastOkReturn(stmts []ast.Stmt) (ast.Expr, bool) {
+	for i := len(stmts) - 1; i >= 0; i-- {
+		if r, ok := stmts[i].(*ast.ReturnStmt); ok && len(r.Results) == 2 {
+			if exprString(r.Results[1]) == "nil" {
+				return r.Results[0], true
+			}
+			return nil, true
+		}
+	}
+	return nil, false
+}
+
+// acctmodEvalPerWt evaluates a helper `func (wt witnessType) f(…) (T, error)`
+// (or one with a witnessType parameter) written as a sequence of top-level
+// early-return `if`s / a tagless switch followed by a final return, for the
+// witness type constant c.  It returns the normalised value returned without
+// error ("" when the helper returns an error), ok=false if the shape is not
+// understood.
+func acctmodEvalPerWt(fd *ast.FuncDecl, c string, expirySet map[string]bool) (string, bool) {
+	n := acctmodNewNorm(fd)
+	for _, st := range fd.Body.List {
+		var ds []acctmodDecision
+		switch s := st.(type) {
+		case *ast.IfStmt:
+			for cur := s; cur != nil; {
+				ds = append(ds, acctmodDecision{cur.Cond, cur.Body.List})
+				switch el := cur.Else.(type) {
+				case *ast.IfStmt:
+					cur = el
+				case *ast.BlockStmt:
+					ds = append(ds, acctmodDecision{nil, el.List})
+					cur = nil
+				default:
+					cur = nil
+				}
+			}
+		case *ast.SwitchStmt:
+			if s.Tag != nil {
+				return "", false
+			}
+			for _, cs := range s.Body.List {
+				cc := cs.(*ast.CaseClause)
+				if cc.List == nil {
+					ds = append(ds, acctmodDecision{nil, cc.Body})
+				}
+				for _, e := range cc.List {
+					ds = append(ds, acctmodDecision{e, cc.Body})
+				}
+			}
+		case *ast.ReturnStmt:
+			v, ok := acctmodLastOkReturn([]ast.Stmt{s})
+			if !ok {
+				return "", false
+			}
+			if v == nil {
+				return "", true
+			}
+			return n.s(v), true
+		default:
+			continue
+		}
+		for _, d := range ds {
+			taken := true
+			if d.cond != nil {
+				v, ok := acctmodEvalCond(n, d.cond, c, expirySet)
+				if !ok {
+					return "", false
+				}
+				taken = v
+			}
+			if !taken {
+				continue
+			}
+			v, ok := acctmodLastOkReturn(d.body)
+			if !ok {
+				break // the branch falls through to the following statements
+			}
+			if v == nil {
+				return "", true
+			}
+			return n.s(v), true
+		}
+	}
+	return "", false
+}
+
+// conjuncts splits a condition into the operands of its top-level &&
+// (parentheses dropped, single-assignment locals replaced by their definition).
+func (n *acctmodNorm) conjuncts(e ast.Expr, depth int) []ast.Expr {
+	switch x := e.(type) {
+	case *ast.ParenExpr:
+		return n.conjuncts(x.X, depth)
+	case *ast.Ident:
+		if d, ok := n.locals[x.Name]; ok && depth < 4 {
+			return n.conjuncts(d, depth+1)
+		}
+	case *ast.BinaryExpr:
+		if x.Op == token.LAND {
+			return append(n.conjuncts(x.X, depth), n.conjuncts(x.Y, depth)...)
+		}
+	}
+	return []ast.Expr{e}
 }
